@@ -51,7 +51,7 @@ func init() {
 			"and a chain whose field values are drawn from pools around the later arguments (argument, argument±1, 0, maximum, near-miss byte strings, fragments, present and absent addresses; logs from 5 addresses). Arguments are then chosen among observed values, their neighbours and absent values. " +
 			"Pipeline cases: pushdown (a log_addr filter with contains/!contains/eq/ne over present and absent addresses, alone or and/or-combined with other filters; logs plan), general, reference filters whose referenced table is filled by a referenced integration plus rows inserted by SQL, " +
 			"pushdown-with-reference (log_addr contains/eq on one or two complete emitting addresses plus a reference filter on an address input or on tx_to, under or/default/and: under or the rows of logs from other contracts whose value is in the referenced table are required, under and the restriction is legitimate) and array (a filter on the elements of an array input, alone or combined). " +
-			"Cases 0-2: hand-written minimal pushdown declarations, out-of-matrix probes, minimal array-filter declarations. " +
+			"Cases 0-2: hand-written minimal pushdown declarations (also with the second filter on a component of a tuple input), out-of-matrix probes, minimal array-filter declarations. " +
 			"signature = (path, mode, sorted list of (site, kind, operator, #args class), aggregation, data/no-data); trivial = no candidate item.",
 		Assumptions: []string{
 			"operator × value-kind matrix as documented by the TS configuration types (FilterArgOp, FilterRefOp) and implemented by dig.Filter.Accept; other combinations (gt/lt on byte strings or strings, filters on signed integers, booleans, tx_type/tx_status, reference filters on non-byte-string values) are not generated; case 1 only records what shovel does with them (evidence set out_of_matrix_behaviour)",
